@@ -98,8 +98,8 @@ func init() {
 				"rejection": "one free byte (0..255) at 3 positions per symbology; digit contents of length 1..15",
 			}
 		},
-		Exhaustive: func(tier string) bool { return false },
-		Outside: []string{"contents that differ from the templates in more than two characters, and other lengths (ITF > 8 digits, Code 128 digit runs that trigger code set C beyond the template's, forced code sets)", "the exhaustive 2*10^6 UPC-E / 10^7 EAN-8 enumeration named in the property (enumeration of concrete runs is not this technique; the per-digit structure is covered by the two-free-digit tasks)", "requested sizes other than the four stated", "the multi-format reader without POSSIBLE_FORMATS (reports UPC-A as EAN-13 with a leading zero; pinned by the repository's own test)", "Codabar alternative start/stop letters T N * E"},
+		Exhaustive:  func(tier string) bool { return false },
+		Outside:     []string{"contents that differ from the templates in more than two characters, and other lengths (ITF > 8 digits, Code 128 digit runs that trigger code set C beyond the template's, forced code sets)", "the exhaustive 2*10^6 UPC-E / 10^7 EAN-8 enumeration named in the property (enumeration of concrete runs is not this technique; the per-digit structure is covered by the two-free-digit tasks)", "requested sizes other than the four stated", "the multi-format reader without POSSIBLE_FORMATS (reports UPC-A as EAN-13 with a leading zero; pinned by the repository's own test)", "Codabar alternative start/stop letters T N * E"},
 		Assumptions: commonAssumptions,
 	}
 }
